@@ -218,3 +218,12 @@ package bondmachine
 //@   loop 2: invariant added: forall p int :: old(len(bmach.Internal_outputs)) <= p && p < len(bmach.Internal_outputs) ==>
 //@                bmach.Internal_outputs[p] == Bond{3, len(bmach.Processors), p - old(len(bmach.Internal_outputs))}
 //@   loop 2: decreases outs - i
+
+//@ props C16
+//@ func Needed_bits(num int) int
+//@   requires num <= pow2(62)
+//@   ensures zero: num <= 0 ==> result == 0
+//@   ensures adequate: num > 0 ==> result >= 1 && result <= 62 && num <= pow2(result)
+//@   ensures tight: num > 0 ==> (result == 1 || pow2(result - 1) < num)
+//@   loop 1: invariant 1 <= bits && bits <= 62 && (bits == 1 || pow2(bits - 1) < num) && num > 0 && num == old(num)
+//@   loop 1: decreases 63 - bits
